@@ -20,6 +20,7 @@
 #include <optional>
 #include <cstring>
 #include <vector>
+#include <algorithm>
 
 namespace sbepp::sbeppc
 {
@@ -30,7 +31,7 @@ class schema_parser
 public:
     schema_parser(
         const std::string& path, ireporter& reporter, ifs_provider& fs_provider)
-        : reporter{&reporter}, fs_provider{&fs_provider}
+        : reporter{&reporter}, fs_provider{&fs_provider}, include_chain{path}
     {
         const auto file_data = this->fs_provider->read_file(path);
         locations = location_manager{path, file_data};
@@ -63,6 +64,8 @@ private:
     sbe::message_schema message_schema;
     unique_set<std::string> unique_message_names;
     unique_set<message_id_t> unique_message_ids;
+    // files being parsed, from the top-level schema down to the current one
+    std::vector<std::string> include_chain;
 
     enum class ordered_member_type
     {
@@ -135,7 +138,20 @@ private:
     void parse_include(const pugi::xml_node root)
     {
         const auto path = get_required_non_empty_string(root, "href");
+        if(std::find(std::begin(include_chain), std::end(include_chain), path)
+           != std::end(include_chain))
+        {
+            throw_error(
+                "{}: recursive include of `{}`",
+                locations.find(root.offset_debug()),
+                path);
+        }
+
         auto parser = schema_parser{path, *reporter, *fs_provider};
+        parser.include_chain.insert(
+            std::begin(parser.include_chain),
+            std::begin(include_chain),
+            std::end(include_chain));
         parser.parse_schema_content();
 
         const auto& schema = parser.get_message_schema();
